@@ -110,3 +110,100 @@ Theorem C01_branch_gauge_exact_refuted_before_fix :
        /\ canonical (bo_node m) = false.
 Proof. exact BranchBuild_proofs.gauge_exact_refuted. Qed.
 Print Assumptions C01_branch_gauge_exact_refuted_before_fix.
+
+(* ---- rebuilding leaf nodes (mirror LeafBuild.v of LeafGauge / LeafOp / LeafUpdater / LeafBuilder,
+   compared with the real updater by the engine `nv lb`, sig c01-lb-model): for every well-formed
+   sequence of stages (LeafBuild.stages_wf: bases and operations ascending, 256-bit keys, cell sizes
+   within the in-leaf limit, every base's separator not above the stage's keys and above the keys
+   before) and every run of the mirror over it (reset_base / remove_cutoff, ingest.., digest per
+   stage): content, sizes, half-full, separators ---- *)
+From Nomt Require LeafBuild LeafBuild_proofs.
+
+Theorem C01_leaf_leaves_content : forall sgs res u',
+  LeafBuild.stages_wf sgs = true -> LeafBuild.run_stages false LeafBuild.u0 sgs = Some (res, u') ->
+  sorted_keys (map LeafBuild.c_key (LeafBuild_proofs.run_cells res u')) = true
+  /\ forall c, In c (LeafBuild_proofs.run_cells res u') <->
+       In (LeafBuild.c_key c, Some (LeafBuild.c_size c, LeafBuild.c_id c)) (LeafBuild.all_ops sgs)
+       \/ (In c (LeafBuild.all_base sgs) /\ forall v, ~ In (LeafBuild.c_key c, v) (LeafBuild.all_ops sgs)).
+Proof. exact LeafBuild_proofs.leaves_content. Qed.
+Print Assumptions C01_leaf_leaves_content.
+
+Theorem C01_leaf_leaves_fit : forall sgs res u',
+  LeafBuild.stages_wf sgs = true -> LeafBuild.run_stages false LeafBuild.u0 sgs = Some (res, u') ->
+  forall m, In m (LeafBuild.all_built res) ->
+    LeafBuild.bl_cells m <> []
+    /\ (LeafBuild.body_of (LeafBuild.bl_cells m) <= LeafBuild.BODY)%N
+    /\ LeafBuild.bl_gauge m = LeafBuild.body_of (LeafBuild.bl_cells m)
+    /\ LeafBuild.bl_n m = length (LeafBuild.bl_cells m)
+    /\ LeafBuild.bl_vs m = LeafBuild.sizes (LeafBuild.bl_cells m).
+Proof. exact LeafBuild_proofs.leaves_fit. Qed.
+Print Assumptions C01_leaf_leaves_fit.
+
+Theorem C01_leaf_leaves_not_underfull : forall sgs res u',
+  LeafBuild.stages_wf sgs = true -> LeafBuild.run_stages false LeafBuild.u0 sgs = Some (res, u') ->
+  Forall2 (fun sg r =>
+             forall pre m post, LeafBuild.sr_built r = pre ++ m :: post ->
+               (LeafBuild.MERGE <= LeafBuild.body_of (LeafBuild.bl_cells m))%N
+               \/ (post = [] /\ LeafBuild_proofs.eff_cutoff sg = None /\ LeafBuild.sr_merge r = None)) sgs res.
+Proof. exact LeafBuild_proofs.leaves_not_underfull. Qed.
+Print Assumptions C01_leaf_leaves_not_underfull.
+
+Theorem C01_leaf_separators_ok : forall sgs res u',
+  LeafBuild.stages_wf sgs = true -> LeafBuild.run_stages false LeafBuild.u0 sgs = Some (res, u') ->
+  (forall pre m post, LeafBuild.all_built res = pre ++ m :: post ->
+     (forall c, In c (LeafBuild.bl_cells m) -> LeafBuild.key_leb (LeafBuild.bl_sep m) (LeafBuild.c_key c) = true)
+     /\ (forall c, In c (LeafBuild_proofs.cells_of pre) -> key_ltb (LeafBuild.c_key c) (LeafBuild.bl_sep m) = true))
+  /\ (LeafBuild.pending u' <> [] ->
+      exists s, LeafBuild.u_sepov u' = Some s
+        /\ (forall c, In c (LeafBuild.pending u') -> LeafBuild.key_leb s (LeafBuild.c_key c) = true)
+        /\ (forall c, In c (LeafBuild_proofs.cells_of (LeafBuild.all_built res)) -> key_ltb (LeafBuild.c_key c) s = true)).
+Proof. exact LeafBuild_proofs.separators_ok. Qed.
+Print Assumptions C01_leaf_separators_ok.
+
+(* the first leaf a digest hands over carries the separator the updater held when the digest began; the
+   first leaf of the tree the all-zero separator *)
+Theorem C01_leaf_first_separator : forall bug u leaves u' nm,
+  LeafBuild.digest bug u = Some (leaves, u', nm) ->
+  match leaves with
+  | m :: _ => LeafBuild.bl_sep m = LeafBuild.separator_of (LeafBuild.u_sepov u) (LeafBuild.u_base u)
+  | [] => True
+  end.
+Proof. exact LeafBuild_proofs.digest_first_separator. Qed.
+Print Assumptions C01_leaf_first_separator.
+
+Theorem C01_leaf_first_leaf_zero_separator : forall ops cutoff m rest u' nm,
+  LeafBuild.run_stage false LeafBuild.u0 (LeafBuild.mkStage None false ops cutoff) = Some (m :: rest, u', nm) ->
+  LeafBuild.bl_sep m = LeafBuild.zero_key.
+Proof. exact LeafBuild_proofs.first_leaf_zero_separator. Qed.
+Print Assumptions C01_leaf_first_leaf_zero_separator.
+
+(* the second statement has teeth: an off-by-one of the split point (the overfull test looks at the
+   gauge before the item is added) overfills a leaf on a stage that satisfies the hypotheses *)
+Theorem C01_leaf_leaves_fit_refuted_with_split_off_by_one :
+  LeafBuild.stages_wf [LeafBuild_proofs.rf_stage] = true
+  /\ exists res u' m,
+       LeafBuild.run_stages true LeafBuild.u0 [LeafBuild_proofs.rf_stage] = Some (res, u')
+       /\ In m (LeafBuild.all_built res)
+       /\ map LeafBuild.c_id (LeafBuild.bl_cells m) = [1; 2; 3; 4]%N /\ LeafBuild.bl_gauge m = 4336%N
+       /\ LeafBuild.body_of (LeafBuild.bl_cells m) = 4336%N
+       /\ (LeafBuild.BODY < LeafBuild.body_of (LeafBuild.bl_cells m))%N.
+Proof. exact LeafBuild_proofs.leaves_fit_refuted. Qed.
+Print Assumptions C01_leaf_leaves_fit_refuted_with_split_off_by_one.
+
+(* and the run exists: on a well-formed sequence of stages the mirror's updater and builder do not
+   panic (no failed assertion, unwrap of None, slice out of bounds, underflow, separate() of equal
+   keys) and its loops end, so the four statements above are about a run that is there *)
+Theorem C01_leaf_run_total : forall sgs,
+  LeafBuild.stages_wf sgs = true ->
+  exists res u', LeafBuild.run_stages false LeafBuild.u0 sgs = Some (res, u').
+Proof. exact LeafBuild_proofs.run_total. Qed.
+Print Assumptions C01_leaf_run_total.
+
+(* a leaf within the body size is a leaf the page encoder accepts (NodeCodec.leaf_fits: the asserts of
+   LeafNode::cell_pointers / LeafBuilder), whatever entries carry its cells *)
+Theorem C01_leaf_built_leaf_fits_page : forall (cells : list LeafBuild.cell) (es : list Image.entry),
+  map (fun e => Image.lenN (NodeCodec.cell_of e)) es = map LeafBuild.c_size cells ->
+  (LeafBuild.body_of cells <= LeafBuild.BODY)%N ->
+  NodeCodec.leaf_fits es = true.
+Proof. exact LeafBuild_proofs.built_leaf_fits_page. Qed.
+Print Assumptions C01_leaf_built_leaf_fits_page.
